@@ -36,6 +36,17 @@ pub(crate) use local_id_registry::LocalIdRegistry;
 pub(crate) use peer_id_registry::PeerIdRegistry;
 pub(crate) use transmission::{ConnectionTransmission, ConnectionTransmissionContext};
 
+/// Verification hook (cfg aws_s2n_quic_verif only): the connection ID registries for an external harness.
+#[cfg(aws_s2n_quic_verif)]
+pub mod verif {
+    pub use super::{
+        connection_id_mapper::ConnectionIdMapper,
+        internal_connection_id::{InternalConnectionId, InternalConnectionIdGenerator},
+        local_id_registry::LocalIdRegistry,
+        peer_id_registry::PeerIdRegistry,
+    };
+}
+
 pub use api::Connection;
 pub use connection_impl::ConnectionImpl as Implementation;
 pub use connection_trait::Lock;
